@@ -37,7 +37,7 @@ def main(tier):
             d = os.path.join(work, "tv-" + mode)
             os.makedirs(d)
             shutil.copyfile(tr, os.path.join(d, "trace.ndjson"))
-            c = dict(BASE, Vals='{"x", "y", "z"}', Keys="{1, 2, 3, 4, 5, 6, 7}", Prefixes='{"a", "b", "ab"}', MaxVersion="100", MaxDepth="3", EnableCopy="TRUE")
+            c = dict(BASE, Vals='{"x", "y", "z", "e"}', Keys="{1, 2, 3, 4, 5, 6, 7}", Prefixes='{"a", "b", "ab"}', MaxVersion="100", MaxDepth="3", EnableCopy="TRUE")
             rt = vlib.tlc(d, "StoreTrace", vlib.cfg_text(spec="TraceSpec", constants=c, invariants=["Report"], postcondition="TraceAccepted"), workers=1, timeout=3000)
             recs = [json.loads(x) for x in open(tr)]
             consumed = max(rt.distinct - 1, 0)
